@@ -13,6 +13,7 @@ Inputs == [Links -> LinkIn]
 MCInit == Init /\ hist = <<>>
 
 ObsOf(o) == [l \in Links |-> [weak |-> o[l].weak, reason |-> o[l].reason, share |-> o[l].share, thr |-> o[l].thr]]
+InSeq(in) == [l \in Links |-> in[l]]
 
 MCNext == \E in \in Inputs :
             /\ Tick(in)
